@@ -264,8 +264,10 @@ def ctor_vcs(n, p, m, hasQ, pr, info):
     g = Vcg(wp, wp.name, bound=f'n = {n}, p = {p} (reduced to {pr}), m = {m}', path=path)
     out = g.from_wp(hyps=props)
     H = held(wp)
-    if p and getattr(wp, 'reduced', None) != ('self.m_A', 'self.m_b'):
-        out.append(g.vc('reduce() is applied to the equality block (m_A, m_b)', [], 'false', line=line))
+    red_ok = not p or getattr(wp, 'reduced', None) == ('self.m_A', 'self.m_b')
+    out.append(g.vc('reduce() is applied to the equality pair (m_A, m_b), before it is scaled', [], 'true' if red_ok else 'false', line=line))
+    if not red_ok:
+        return out + [g.canary(props)]
     Ar = [[wp.leaf(f'Ar_{r}_{c}', 'e') for c in range(n)] for r in range(pr)] if p else P['A']
     br = [wp.leaf('br', r) for r in range(pr)] if p else P['b']
     by = {(c['keyA'], c['keyb']): c for c in calls}
@@ -336,11 +338,85 @@ def ctor_vcs(n, p, m, hasQ, pr, info):
     return out
 
 
+# ------------------------------------------------------------------------------------------------- nano::program::reduce (frame, split)
+UTIL_TU = 'src/program/util.cpp'
+UTIL_FLT = 'nano::program::reduce'
+
+
+def h_stack(wp, node, args, callee):
+    """nano::stack<scalar_t>(rows, cols, M.matrix(), v.vector()) (include/nano/tensor/stack.h; variadic, not walked): ASSUMED contract for
+    this call shape: the rows x cols matrix [M | v]; the shape conditions (M is rows x (cols - 1), v has rows coefficients) are obligations"""
+    if len(args) != 4:
+        raise Unsupported(f'{wp.name}: stack with {len(args)} arguments')
+    r, c = lit_int(wp.ev(args[0]).t), lit_int(wp.ev(args[1]).t)
+    M, v = wp.ev(args[2]), wp.ev(args[3])
+    if not isinstance(M, MV) or not isinstance(v, AV) or r is None or c is None:
+        raise Unsupported(f'{wp.name}: stack(rows, cols, matrix, vector) expected')
+    ok = (M.rows, M.cols + 1, len(v.c)) == (r, c, r)
+    wp.oblige('stack(rows, cols, A, b): A is rows x (cols - 1) and b has rows coefficients', 'true' if ok else 'false', node)
+    if not ok:
+        raise Unsupported(f'{wp.name}: stack({r}, {c}, {M.rows} x {M.cols}, {len(v.c)})')
+    out = MV([list(row) + [y] for row, y in zip(M.m, v.c)])
+    out.cols = c
+    return out
+
+
+def h_reduce1(wp, node, args, callee):
+    """::reduce(Ab) (Eigen::FullPivLU): ASSUMED contract: Ab becomes SOME matrix with wp.reduced_rows <= rows rows and the same columns"""
+    key = wp.key_of(args[0])
+    M = wp.env.get(key)
+    if not isinstance(M, MV) or not (1 <= wp.reduced_rows <= M.rows):
+        raise Unsupported(f'{wp.name}: ::reduce on {key}')
+    wp.env[key] = MV([[wp.leaf(f'Abr_{r}_{c}', 'e') for c in range(M.cols)] for r in range(wp.reduced_rows)])
+    wp.ver[key] = wp.ver.get(key, 0) + 1
+    wp.reduce1_on = getattr(wp, 'reduce1_on', []) + [(key, [list(r) for r in M.m])]
+    return V('0', 'Int', 'int')
+
+
+def reduce_vcs(n, p, pr, info):
+    path = astload.REPO + '/' + UTIL_TU
+    fn = astload.find_definition(UTIL_TU, UTIL_FLT, 'reduce', lambda d: len(astload.param_types(d)) == 2 and 'matrix_t' in astload.param_types(d)[0])
+    wp = ProgWP(f'program_reduce[n={n},p={p}->{pr}]')
+    wp.calls = [(r'^stack\|', h_stack), (r'^reduce\|void \(', h_reduce1)] + list(wp.calls)
+    wp.reduced_rows = pr
+    kA, kb = [k for k, _ in wp.bind_params(fn)]
+    A0 = [list(r) for r in wp.mat(kA, 'A', p, n).m]
+    b0 = list(wp.vec(kb, 'b', p).c)
+    rets = []
+    wp.post = lambda w, rv: (rets.append((w.guard, rv)), [])[1]
+    wp.run(fn, path)
+    if len(rets) != 1 or rets[0][1] is None:
+        raise Unsupported(f'{wp.name}: {len(rets)} return paths')
+    info.append(fninfo('program_reduce[reals]', 'nano::program::reduce', path, fn))
+    g = Vcg(wp, wp.name, bound=f'n = {n}, p = {p} rows reduced to {pr}', path=path)
+    out = g.from_wp()
+    A1, b1, r = wp.env[kA], wp.env[kb], rets[0][1].t
+    line = line_of(fn)
+    if p == 0:
+        same = A1.rows == 0 and not b1.c and not getattr(wp, 'reduce1_on', [])
+        out.append(g.vc('no equalities: returns false, nothing is decomposed, (A, b) untouched', [], f'(and (not {r}) {"true" if same else "false"})', line=line))
+    else:
+        on = getattr(wp, 'reduce1_on', [])
+        stacked = len(on) == 1 and on[0][1] == [list(row) + [y] for row, y in zip(A0, b0)]
+        out.append(g.vc('[A | b] is decomposed as ONE matrix (the right-hand side takes part in the rank decision), exactly once', [],
+                        'true' if stacked else 'false', line=line))
+        Abr = [[wp.leaf(f'Abr_{i}_{j}', 'e') for j in range(n + 1)] for i in range(pr)]
+        shape = (A1.rows, A1.cols if A1.rows else n, len(b1.c)) == (pr, n, pr)
+        split = conj([f'(= {A1.m[i][j]} {Abr[i][j]})' for i in range(pr) for j in range(n)] + [f'(= {b1.c[i]} {Abr[i][n]})' for i in range(pr)]) if shape else 'false'
+        out.append(g.vc('consistent split: A\' is the first n columns and b\' the LAST column of the SAME reduced matrix, row for row; returns true', [],
+                        f'(and {r} {split})', line=line))
+    out.append(g.canary())
+    return out
+
+
 def jobs(tier, shapes, info):
     out = []
     mats = sorted({(n, n) for n, _, _ in shapes} | {(p, n) for n, p, _ in shapes if p} | {(m, n) for n, _, m in shapes if m} | {(0, 0)})
     for r, c in mats:
         out.append((lambda r=r, c=c: normalize_vcs(r, c, info), f'::normalize {r}x{c}'))
+    for (n, p) in sorted({(n, p) for n, p, _ in shapes}):
+        for pr in sorted({p, max(1, p - 1)} if p else {0}):
+            out.append((lambda a=(n, p, pr): reduce_vcs(*a, info), f'nano::program::reduce {(n, p, pr)}'))
     for (n, p, m) in shapes:
         for hasQ in (True, False):
             for pr in sorted({p, max(1, p - 1)} if p else {0}):
